@@ -312,8 +312,11 @@ def recipes():
     for n in ('bootstrap_sample', 'bootstrap_sample_rdm', 'bootstrap_sample_pattern', 'boot_noise_ceiling',
               'sets_leave_one_out_rdm', 'sets_k_fold_rdm', 'sets_random', 'sets_k_fold'):
         R[n] = lambda k: ([k.rdms(5, 7)], {})
+    # the randomising fold generators: odd variants split by the user's own condition labels (a sorted array of names)
+    for n in ('sets_random', 'sets_k_fold'):
+        R[n] = lambda k: ([k.rdms(5, 7)], {'pattern_descriptor': 'cond'} if k.variant % 2 else {})
     R['sets_leave_one_out_pattern'] = lambda k: ([k.rdms(3, 6), 'cond'], {})
-    R['sets_k_fold_pattern'] = lambda k: ([k.rdms(3, 6)], {'k': 2})
+    R['sets_k_fold_pattern'] = lambda k: ([k.rdms(3, 6)], {'k': 2, **({'pattern_descriptor': 'cond'} if k.variant % 2 else {})})
     R['sets_of_k_pattern'] = lambda k: ([k.rdms(3, 6)], {'pattern_descriptor': 'cond', 'k': 3})
     R['sets_of_k_rdm'] = lambda k: ([k.rdms(4, 6)], {'k': 2})
     R['cv_noise_ceiling'] = lambda k: ((lambda d, s: ([d, s[2], s[1]], {'method': 'cosine'}))(*sets_of(k)))
